@@ -38,7 +38,13 @@ def run(ctx):
         ctx.bridge('translator: %d syntactic facts about the merge machinery of sorts.py' % len(_msi['facts']), True)
     except Exception as e:   # noqa
         ctx.bridge('translator: merge machinery facts extracted', False, repr(e))
-    ctx.prove(['PetlProofs.Props.C05', 'PetlProofs.Props.C05Shape'], REQUIRED + ['Petl.C05.merge_machinery_as_modelled'])
+    from translators import fingerprints as _fp
+    try:
+        _fpi = _fp.generate()
+        ctx.bridge('translator: fingerprints of the petl functions the hand-written models mirror (%d bodies)' % _fpi['names'], True)
+    except Exception as e:   # noqa
+        ctx.bridge('translator: source fingerprints extracted', False, repr(e))
+    ctx.prove(['PetlProofs.Props.C05', 'PetlProofs.Props.C05Shape', 'PetlProofs.Snapshot.C05'], REQUIRED + ['Petl.C05.merge_machinery_as_modelled'] + ['Petl.Snapshot.C05_sources_as_validated'])
     ncases = 3000 if ctx.thorough() else 400
     rng = ctx.rng
     tmpd = tempfile.mkdtemp(prefix='petl_c05_')
